@@ -124,9 +124,10 @@ def stepLine (net : Net) (toks : List String) : Net × String :=
     match n.toNat? with
     | some n => ({ nodes := (List.range n).map fun i => Node.init (i + 1) }, "ok")
     | none => bad
-  | ["reset", n, "defer"] =>
+  | "reset" :: n :: flags =>
     match n.toNat? with
-    | some n => ({ nodes := (List.range n).map fun i => { Node.init (i + 1) with defer := true } }, "ok")
+    | some n => ({ nodes := (List.range n).map fun i =>
+        { Node.init (i + 1) with defer := flags.contains "defer", gated := flags.contains "gated" } }, "ok")
     | none => bad
   | "xr" :: node :: cid :: rest =>
     match node.toNat?, cid.toNat? with
@@ -223,6 +224,10 @@ def stepLine (net : Net) (toks : List String) : Net × String :=
       | "xp", [i, num] =>
         match getNode net i with
         | some n => finish net (expireCreate n num, [])
+        | none => bad
+      | "jg", [i, k] =>
+        match getNode net i with
+        | some n => finish net (joinRelease sym n k)
         | none => bad
       | "rxC", [i, cid] =>
         match getNode net i with
